@@ -367,6 +367,12 @@ class C16(Profile):
                 o = world.sigs[op["obj"]]
                 rec = {"values": np.asarray(o.values, dtype=float).copy(), "dt": float(o.dt), "label": o.label, "via": op["via"]}
             old = world.model.get(f)
+            if out.ok and "bad_sample" in op:
+                # a record with a sample that is not a number is outside C16; an implementation that accepts it (None read as
+                # NaN, say) is not judged on what it wrote -- false alarm found by the independent benign change b16-1
+                st["faults"].setdefault("K1", {"armed": 0, "fired": 0, "recovered": 0})["armed"] += 1
+                world.model[f] = UNKNOWN
+                return None
             if out.ok:
                 # a save that returns normally is acknowledged, whether or not a fault was injected into it:
                 # what it wrote must load back (an implementation that swallows an I/O error owns the result)
